@@ -225,7 +225,7 @@ Section Tok.
     n_pos (nth i ns' dnode) = n_pos (nth i ns dnode) /\
     n_tok (nth i ns' dnode) = n_tok (nth i ns dnode).
   Proof.
-    intros [(_ & _ & H & _) S] Hi. destruct (H i Hi) as (A1 & _ & A3). destruct (S i Hi) as [B1 B2].
+    intros [(_ & _ & H & _) S] Hi. destruct (H i Hi) as (A1 & _ & A3 & _). destruct (S i Hi) as [B1 B2].
     repeat split; assumption.
   Qed.
 
@@ -287,7 +287,8 @@ Section Tok.
       set (key := node_id (getn st root)) in *. set (L := mkPar hd root s e [a]).
       set (f := n_add_parent key (length ps)).
       pose proof (ext_app_par ns ps L) as He1.
-      assert (He2 : ext ns (ps ++ [L]) (list_upd hd f ns) (ps ++ [L])) by (apply ext_upd_node; reflexivity || auto).
+      assert (He2 : ext ns (ps ++ [L]) (list_upd hd f ns) (ps ++ [L])).
+      { apply ext_upd_node; try reflexivity; [auto|]. intros x Hx. cbn [f n_add_parent n_parents]. apply in_or_app. left. exact Hx. }
       pose proof (ext_trans _ _ _ _ _ _ He1 He2) as He.
       assert (Hsame : forall i, i < length ns ->
                 n_pos (nth i (list_upd hd f ns) dnode) = n_pos (nth i ns dnode) /\
@@ -866,7 +867,9 @@ Section Tok.
     nnode_ok P K loop (f (nth i ns dnode)) ->
     heap2_ok P K loop (list_upd i f ns) ps.
   Proof.
-    intros [Hl Hn] [Hl2 Hn2] Hi Hs Ht Hf Hp Hnn. pose proof (ext_upd_node ns ps i f Hs Ht Hf) as He. split.
+    intros [Hl Hn] [Hl2 Hn2] Hi Hs Ht Hf Hp Hnn.
+    assert (Hg : forall x, In x (n_parents (nth i ns dnode)) -> In x (n_parents (f (nth i ns dnode)))) by (intros x Hx; rewrite Hp; exact Hx).
+    pose proof (ext_upd_node ns ps i f Hs Ht Hf Hg) as He. split.
     - intros q Hq. destruct (Hl q Hq) as (B1 & B2 & _).
       eapply link2_ok_ext; [exact He|exact B1|exact B2|apply Hl2; exact Hq].
     - intros j Hj. rewrite list_upd_length in Hj. destruct (Hn2 j Hj) as [C1 C2].
@@ -1073,9 +1076,9 @@ Section Tok.
       assert (Hs1 : n_state (n_set_pos p (nth h ns dnode)) = n_state (nth h ns dnode)) by reflexivity.
       assert (Ht1 : forall t, n_tok (nth h ns dnode) = Some t ->
                               n_tok (n_set_pos p (nth h ns dnode)) = Some t) by auto.
-      pose proof (ext_upd_node ns ps h _ Hs1 Ht1 eq_refl) as He1.
+      pose proof (ext_upd_node ns ps h _ Hs1 Ht1 eq_refl (fun x H => H)) as He1.
       assert (Hheap1' : heap_ok g tb (s_nodes st1) (s_pars st1)).
-      { cbn [st1 upd_node set_nodes s_nodes s_pars]. apply heap_upd_node; [exact Hs1|exact Ht1|reflexivity|exact Hheap1|].
+      { cbn [st1 upd_node set_nodes s_nodes s_pars]. apply heap_upd_node; [exact Hs1|exact Ht1|reflexivity|exact (fun x H => H)|exact Hheap1|].
         intros _. apply (node_ok_same _ _ (nth h ns dnode)); [reflexivity|reflexivity|].
         eapply node_ok_ext; [exact He1|]. destruct Hheap1 as [_ Hn]. apply Hn. exact Hh. }
       destruct (proj2 Hheap h Hh) as [(N1 & N2 & _) _].
